@@ -49,6 +49,42 @@ CLAIMED["C10"] = dict(
     text="vcs.commit is proved to perform pre-hook, stage, commit, post-hook, tag, push in that order, each iff enabled (and commit on), stopping at the first failure, for git and hg command sets alike; hooks.run is proved to pass BUMPVER_OLD_VERSION/NEW_VERSION and exit 1 on failure; _parse_vcs_options rejects contradictions without effects; update is proved to issue nothing past the gate under --dry, to fetch only if asked, and to stop with a non-zero exit on every failure.",
     note=TB + "A-proc: subprocess primitives either return or raise after the attempt; Popen pipes feed only log text. The loop over the configured paths is cut by an invariant (one add_path per path).",
 )
+CLAIMED["C03"] = dict(
+    category="other",
+    technique="contract-based deductive verification of rewrite_lines/rewrite_files (array-modelled lines, quantified match facts, loop invariants; z3) plus a bounded generated-project shadow for the end-to-end statement",
+    text="Proved: rewrite_lines (v1 and v2) replaces, on a line with one or with two occurrences of different patterns, every matched span by the rendering of the new version through the normalised pattern and keeps the rest of the line; returns only if every pattern matched; rewrite_files writes exactly the configured files. Bounded (never counted as proved): placeholder expansion, rendering and the config file's own line, exercised end to end on generated projects through the real CLI.",
+    note=TB + "iter_matches is used through its contract (matches within their line, disjoint per line); lines with three or more occurrences and {version}/{pep440_version} semantics are covered only by the bounded shadow.",
+)
+CLAIMED["C04"] = dict(
+    category="proof",
+    technique="contract-based deductive verification (z3): separator detection, split/join with the same separator, frame of rewrite_lines, call-site obligations on every open()",
+    text="detect_line_sep is proved to pick CRLF before CR before LF; rfd_from_content to split by exactly that separator; rewrite_files to write, for each configured file and no other, the lines re-joined with the same separator through open(..., newline='', encoding='utf-8'); rewrite_lines to leave unmatched lines, the text outside matched spans, the number of lines and the caller's list untouched.",
+    note=TB + "A-io: with newline='' and an explicit encoding read/write are byte-transparent (their presence at each call site is an obligation); A-str: sep.join(s.split(sep)) == s.",
+)
+CLAIMED["C12"] = dict(
+    category="proof",
+    technique="contract-based deductive verification of VCSAPI.__call__ for every command template of both tables with symbolic values (z3), exhaustive check of the OLD/NEW shorthand, bounded shadow with quotes in messages",
+    text="The argv handed to the VCS is proved to be the tokenised template with each placeholder replaced by the value verbatim, for every template of the git and hg tables and all string values, also on failing commands; VCSAPI.commit/tag/add/push_tag pass message, tag name and path unchanged; update renders the message templates with the six documented keys.",
+    note=TB + "A-proc: shlex.split of the concrete templates is evaluated by the real shlex; str.format inserts values verbatim (A-str).",
+)
+CLAIMED["C13"] = dict(
+    category="proof",
+    technique="relational contract-based verification: diff and rewrite_files are proved to compute the same per-file data from the same arguments (z3); unified-diff construction is an assumed library contract",
+    text="update --dry is proved to issue no write, hook or mutating VCS event; v1/v2 diff are proved to hand to diff_lines, for every configured file, exactly the RewrittenFileData that rewrite_files writes (same patterns, same parsed new version, same content, same separator) and to succeed only if every file exists and every pattern matches, so a dry exit 0 implies the real rewrite phase succeeds.",
+    note=TB + "A-lib: difflib.unified_diff(a, b) applied to a yields b (not proved); A-sort: sorted() returns a permutation.",
+)
+CLAIMED["C16"] = dict(
+    category="proof",
+    technique="contract-based deductive verification: the six _BaseVersion operators and the sentinel dunder methods executed under Python's comparison protocol against a declarative PEP 440 ordering; spec lemmas (strict weak order) by z3",
+    text="For all version records, every comparison operator of the vendored module is proved equal to a PEP 440 ordering written from the PEP's prose; that ordering is proved irreflexive, transitive and trichotomous, which gives the total preorder; _cmpkey is proved to build the documented key; legacy versions are proved to sort below every PEP 440 version.",
+    note=TB + "Bounded only in tuple length: release <= 8 components, local version <= 2 segments. String -> record parsing (the version regex) is checked against packaging.version on seeded spellings (bounded).",
+)
+CLAIMED["C19"] = dict(
+    category="proof",
+    technique="contract-based deductive verification of _pick_config_filepath, write_content and cli.init (z3) plus complete enumeration of all 8192 project layouts through the real init/config code",
+    text="Config file selection is proved to prefer a file that holds a bumpver section with a current_version, then any existing candidate, else bumpver.toml; write_content to append (mode 'at', utf-8) to that file only; init to refuse (exit 1) when configured and to write nothing under --dry. Every one of the 8192 layouts of the quantifier is run through the real code: the appended text is read back by bumpver itself from the same file.",
+    note=TB + "X is evaluation, complete for the stated layouts ('unrelated content' is one representative text per format).",
+)
 _PENDING = "check not built yet in this round (work in progress, see DESIGN.md section 2)"
-NOT_APPLICABLE = {p: _PENDING for p in ["C02","C03","C04","C07","C08","C12","C13","C15","C16","C18","C19","C20"]}
+NOT_APPLICABLE = {p: _PENDING for p in ["C02","C07","C08","C15","C18","C20"]}
 NOTES = "Contract-based deductive verification of the real Python source (pyvc). See DESIGN.md."
